@@ -3,8 +3,8 @@ from verif import Case
 from gen_util import *
 import pyref
 
-MODULES = ["WowSrp.Props.C09", "WowSrp.Props.Source.C09", "WowSrp.Props.Source.Structural.C09", "WowSrp.Props.C09Directions", "WowSrp.Props.Source.Rc4Prga", "WowSrp.Props.Source.Glue.Wrath", "WowSrp.Props.Source.Shape.C09", "WowSrp.Props.Source.Rc4Ksa"]
-THEOREMS = ["C09_new_ok", "C09_new_empty_key", "C09_step_no_panic", "C09_no_panic", "C09_keystream_indep_of_data", "C09_state_depends_on_length_only", "C09_chunking", "C09_involution", "C09_directions", "C09_direction_values", "C09_drop", "C09_key_derivation", "C09_halves", "C09_roundtrip_c2s", "C09_roundtrip_s2c", "C09_roundtrip_from_equal_states", "C09_rc4_refines", "C09_rc4_refines_stream", "C09_inner_refines", "C09_source_layout", "C09_source_structural_impls", "C09_prga_bijective", "C09_shared_state_gives_key_collision", "C09_shared_state_gives_key_collision_halves", "C09_no_key_collision_gives_disjoint_states", "C09_test_no_key_collision", "C09_test_directions_differ", "C09_translated_prga", "C09_source_glue_wrath", "C09_source_shapes", "C09_translated_ksa"]
+MODULES = ["WowSrp.Props.C09", "WowSrp.Props.Source.C09", "WowSrp.Props.Source.Structural.C09", "WowSrp.Props.C09Directions", "WowSrp.Props.Source.Rc4Prga", "WowSrp.Props.Source.Glue.Wrath", "WowSrp.Props.Source.Shape.C09", "WowSrp.Props.Source.Rc4Ksa", "WowSrp.Props.Source.HashesWrathKey"]
+THEOREMS = ["C09_new_ok", "C09_new_empty_key", "C09_step_no_panic", "C09_no_panic", "C09_keystream_indep_of_data", "C09_state_depends_on_length_only", "C09_chunking", "C09_involution", "C09_directions", "C09_direction_values", "C09_drop", "C09_key_derivation", "C09_halves", "C09_roundtrip_c2s", "C09_roundtrip_s2c", "C09_roundtrip_from_equal_states", "C09_rc4_refines", "C09_rc4_refines_stream", "C09_inner_refines", "C09_source_layout", "C09_source_structural_impls", "C09_prga_bijective", "C09_shared_state_gives_key_collision", "C09_shared_state_gives_key_collision_halves", "C09_no_key_collision_gives_disjoint_states", "C09_test_no_key_collision", "C09_test_directions_differ", "C09_translated_prga", "C09_source_glue_wrath", "C09_source_shapes", "C09_translated_ksa", "C09_translated_inner_new"]
 RULE = ("per session key: the client object encrypts a client->server stream and decrypts a server->client stream, the server object the "
         "converse; all four halves' output compared with an independent HMAC-SHA1 / RC4-drop1024 (Python); streams cross 256 and 65 536 bytes "
         "(RC4 counter wraps), random partitions incl. empty calls; cross-direction keystreams compared per key (test, not theorem). "
